@@ -119,6 +119,16 @@ type plAnalysis struct {
 	byObj   map[*types.Func]*plFunc
 	impls   map[string][]*plFunc
 	changed bool
+	// sites: every direct payload-class store (not through a callee) that may
+	// land in memory reachable from a parameter, keyed by position
+	sites map[token.Pos]*plSite
+}
+
+type plSite struct {
+	f    *plFunc
+	pos  token.Pos
+	what string
+	sums map[plSum]bool
 }
 
 var plInputLoc = plLoc{kind: plInput}
@@ -158,7 +168,7 @@ func plPointerLikeDepth(t types.Type, d int) bool {
 }
 
 func newPayloadAnalysis(pk *packages.Package) *plAnalysis {
-	a := &plAnalysis{pk: pk, info: pk.TypesInfo, byObj: map[*types.Func]*plFunc{}, impls: map[string][]*plFunc{}}
+	a := &plAnalysis{pk: pk, info: pk.TypesInfo, byObj: map[*types.Func]*plFunc{}, impls: map[string][]*plFunc{}, sites: map[token.Pos]*plSite{}}
 	for _, fd := range core.AllFuncDecls(pk) {
 		obj, _ := a.info.Defs[fd.Name].(*types.Func)
 		if obj == nil || fd.Body == nil {
@@ -658,6 +668,14 @@ func (a *plAnalysis) noteWrite(f *plFunc, ls plSet, pay bool, pos token.Pos, wha
 			f.writes[s] = plWitness{pos, what}
 			a.changed = true
 		}
+		if pay && !strings.HasPrefix(what, "call of") {
+			st := a.sites[pos]
+			if st == nil {
+				st = &plSite{f: f, pos: pos, what: what, sums: map[plSum]bool{}}
+				a.sites[pos] = st
+			}
+			st.sums[s] = true
+		}
 	}
 }
 
@@ -1071,4 +1089,25 @@ func (a *plAnalysis) redirectIdiom(f *plFunc, cp *ast.CallExpr) bool {
 		}
 	}
 	return false
+}
+
+// DebugPayloadWriters lists the direct payload store sites.
+func DebugPayloadWriters(p *core.Program) {
+	rp := p.Pkg("roaring")
+	a := newPayloadAnalysis(rp)
+	var ps []token.Pos
+	for pos := range a.sites {
+		ps = append(ps, pos)
+	}
+	sort.Slice(ps, func(i, j int) bool { return ps[i] < ps[j] })
+	for _, pos := range ps {
+		st := a.sites[pos]
+		var ks []string
+		for s := range st.sums {
+			k := map[plKind]string{plParam: "P", plParamDeep: "P*", plInput: "IN"}[s.kind]
+			ks = append(ks, fmt.Sprintf("%s%d.%s", k, s.idx, plFldName(s.fld)))
+		}
+		sort.Strings(ks)
+		fmt.Printf("%s %s: %s -> %s\n", p.Pos(pos), core.FuncName(st.f.decl), st.what, strings.Join(ks, ","))
+	}
 }
